@@ -11,6 +11,7 @@ import (
 	"testing"
 	"time"
 
+	"github.com/buzzfeed/sso/internal/proxy"
 	"github.com/buzzfeed/sso/verifharness/oracle"
 	"github.com/buzzfeed/sso/verifharness/sut"
 	"github.com/buzzfeed/sso/verifharness/vh"
@@ -104,6 +105,7 @@ const (
 	ckOtherSecret
 	ckGates
 	ckGood
+	ckFlowRecord
 	nCookie
 )
 
@@ -117,7 +119,7 @@ const (
 	nGates = 64
 )
 
-var cookieNames = []string{"absent", "random", "truncated", "othersecret", "genuine", "genuine-good"}
+var cookieNames = []string{"absent", "random", "truncated", "othersecret", "genuine", "genuine-good", "sealed-flow-record"}
 var endpointNames = []string{"proxy", "auth-only", "favicon"}
 var answerNames = []string{"ok", "401", "403", "400", "500", "malformed", "dropped", "group-absent"}
 var methods = []string{"GET", "POST", "HEAD", "OPTIONS", "PUT"}
@@ -324,6 +326,15 @@ func runConfig(t *testing.T, rep *vh.Report, env vh.Env, ci, perConfig, only int
 			cookies = []string{ps.CookieName + "=" + v[:1+r.Intn(len(v)-1)]}
 		case ckOtherSecret:
 			cookies = []string{ps.CookieName + "=" + otherSecret.Seal(sess)}
+		case ckFlowRecord:
+			// a value the proxy itself sealed under the same secret, but not a session: the flow record
+			// it hands to every unauthenticated browser as state parameter / CSRF cookie
+			v, err := ps.Cipher.Marshal(&proxy.StateParameter{SessionID: randWord(r, 32), RedirectURI: "/" + randWord(r, 6)})
+			if err != nil {
+				rep.Inconclusive("cannot seal a flow record: " + err.Error())
+				return
+			}
+			cookies = []string{ps.CookieName + "=" + v}
 		case ckGates, ckGood:
 			genuine = true
 			if gates&gSlugBad != 0 {
@@ -553,7 +564,6 @@ func runConfig(t *testing.T, rep *vh.Report, env vh.Env, ci, perConfig, only int
 	}
 }
 
-
 // runCrossUpstream drives overlapping requests of ONE user (same tokens) against TWO upstreams with
 // different policies while both sessions have a check due: the authenticator holds its answer so
 // that the two provider calls overlap. Each upstream must still decide under its own policy (the
@@ -623,7 +633,9 @@ func runCrossUpstream(rep *vh.Report, env vh.Env) {
 			rs   *sut.Resp
 		}
 		out := make(chan res, 2)
-		go func() { out <- res{first, ps.Client.Do(sut.Req{Host: first, Target: "/x/" + uid, Cookies: []string{c1}})} }()
+		go func() {
+			out <- res{first, ps.Client.Do(sut.Req{Host: first, Target: "/x/" + uid, Cookies: []string{c1}})}
+		}()
 		overlapped := false
 		for w := 0; w < 2000; w++ {
 			if ps.Auth.MaxInflight(primary, key) >= 1 {
@@ -632,7 +644,9 @@ func runCrossUpstream(rep *vh.Report, env vh.Env) {
 			}
 			time.Sleep(time.Millisecond)
 		}
-		go func() { out <- res{second, ps.Client.Do(sut.Req{Host: second, Target: "/x/" + uid, Cookies: []string{c2}})} }()
+		go func() {
+			out <- res{second, ps.Client.Do(sut.Req{Host: second, Target: "/x/" + uid, Cookies: []string{c2}})}
+		}()
 		time.Sleep(time.Duration(5+r.Intn(20)) * time.Millisecond)
 		close(hold)
 		rep.Eval()
